@@ -866,9 +866,16 @@ model('ghost:Semaphore', fields={}, methods={
     'release': Callback('release', effect=sem_release),
     'locked': Callback('locked', effect=sem_locked),
 })
+def fut_done(ghost):
+    """Future.done() of the pending response (asked by on_transport_lost since notes/C16/fix-1.diff): ghost.fut_done says
+    whether the response already arrived (set_result ran) while the waiter in _send_command has not resumed yet"""
+    return ghost.fut_done
+
+
 model('ghost:Future', fields={}, methods={
     'set_result': Callback('set_result', effect=fut_set_result),
     'set_exception': Callback('set_exception', effect=fut_set_exception),
+    'done': Callback('done', effect=fut_done),
 })
 model('bumble.hci:HCI_Command#host', fields=dict(op_code=IntRange(1, 0xFFFF), name=Str))
 model('bumble.hci:HCI_Command_Complete_Event#host', fields=dict(num_hci_command_packets=IntRange(0, 255), command_opcode=IntRange(0, 0xFFFF)))
@@ -884,6 +891,9 @@ model(
     methods={
         'send_hci_packet': Callback('send_hci_packet', effect=host_send, raises=(RuntimeError,)),
         'emit': Callback('emit', effect=host_emit),
+        # Host._forget_links (notes/C16/fix-2.diff): drops the link tables and data queues, touches no command state
+        # (what it does is C16: contracts/c16_teardown.py)
+        '_forget_links': Callback('_forget_links'),
     },
 )
 HOST = Inst('bumble.host:Host')
@@ -1027,7 +1037,7 @@ contract(
 
 
 # -- event handlers -----------------------------------------------------------
-EVENT_GHOST = dict(SEM_GHOST, results=Int, result_opcode=Int, failures=Int, flushes=Int)
+EVENT_GHOST = dict(SEM_GHOST, results=Int, result_opcode=Int, failures=Int, flushes=Int, fut_done=Bool)
 EVENT_MOD = ['ghost.sem', 'ghost.results', 'ghost.result_opcode']
 
 
@@ -1092,7 +1102,9 @@ contract(
     prop='C03',
     params=dict(self=HOST),
     ghost=EVENT_GHOST,
-    requires=host_inv,
+    # the pending response is still pending (C03's view: one outstanding command, not yet answered); the states in which it
+    # is already finished are C16 (contracts/c16_teardown.py, notes/C16 defect 1)
+    requires=lambda self, ghost: host_inv(self, ghost) + [not ghost.fut_done],
     ensures=lambda self, ghost, old: host_inv(self, ghost) + [
         # the waiting caller (if any) is woken with an exception: it then clears the pending state and releases
         ghost.failures == old.ghost.failures + (1 if self.pending_response is not None else 0),
